@@ -505,9 +505,14 @@ def explore(ctl: Controller, a, t0):
     selftests = {}
     if not a.no_selftest:
         n_re, n_fresh = w.selftest_n[a.tier]
+        t1 = time.monotonic()
         selftests["re_execution"] = ctl.determinism_selftest(n_re)
+        t2 = time.monotonic()
         selftests["fresh_interpreter"] = ctl.hashseed_selftest(n_fresh)
+        t3 = time.monotonic()
         selftests.update(w.extra_selftests(ctl) or {})
+        selftests["phase_wall_s"] = dict(batch=round(t_batch, 1), re_execution=round(t2 - t1, 1), fresh_interpreter=round(t3 - t2, 1), extra=round(time.monotonic() - t3, 1))
+        print(f"[{w.pid}] phases: {selftests['phase_wall_s']}", flush=True)
 
     # ---- violations: group by (check, site); shrink and verify a few
     reported = []
